@@ -211,6 +211,7 @@ static VIA_FW: std::sync::atomic::AtomicBool = std::sync::atomic::AtomicBool::ne
 /// `VIA addwriter-failing`: next to the additional file writer `{flw}` the logger has a primary writer
 /// and further additional writers whose `reopen_output()` / `rotate()` FAIL — the handle must still
 /// reach every writer ("all of them will be attempted")
+pub static BUILDER_ORDER: AtomicUsize = AtomicUsize::new(0);
 static VIA_FAILING: std::sync::atomic::AtomicBool = std::sync::atomic::AtomicBool::new(false);
 struct FailingWriter;
 impl LogWriter for FailingWriter {
@@ -254,20 +255,41 @@ pub fn logger(dir: &Path, sp: &SpecP, cfg: &CfgP, mode: Option<WriteMode>, errch
             .panic_if_error_channel_is_broken(false)
             .build().expect("Logger::build");
     }
-    let l = flexi_logger::Logger::with(flexi_logger::LogSpecification::trace());
-    let l = if VIA_FW.load(std::sync::atomic::Ordering::SeqCst) { l.log_to_file_and_writer(file_spec(dir, sp), Box::new(NullWriter)) } else { l.log_to_file(file_spec(dir, sp)) };
+    // `NOTE builder-order N`: the same configuration through different call orders and through the
+    // `o_*` forms of the builder methods (the result must not depend on it)
+    let order = BUILDER_ORDER.load(std::sync::atomic::Ordering::SeqCst);
+    let mut l = flexi_logger::Logger::with(flexi_logger::LogSpecification::trace());
+    let rot = rotation(sp, cfg);
+    let wm = mode.unwrap_or(match cfg.cap { None => WriteMode::Direct, Some(c) => WriteMode::BufferDontFlushWith(c) });
+    let to_file = |l: flexi_logger::Logger| if VIA_FW.load(std::sync::atomic::Ordering::SeqCst) { l.log_to_file_and_writer(file_spec(dir, sp), Box::new(NullWriter)) } else { l.log_to_file(file_spec(dir, sp)) };
+    match order {
+        1 => {
+            // rotation, append and write mode are chosen BEFORE the output
+            if let Some((crit, naming, cleanup)) = rot { l = l.rotate(crit, naming, cleanup); }
+            if cfg.append { l = l.append(); }
+            l = l.write_mode(wm);
+            l = to_file(l);
+        }
+        2 => {
+            l = to_file(l);
+            l = l.o_rotate(rot).o_append(cfg.append).write_mode(wm);
+        }
+        3 => {
+            l = l.write_mode(wm).o_append(cfg.append).o_rotate(rot);
+            l = to_file(l);
+        }
+        _ => {
+            l = to_file(l);
+            if let Some((crit, naming, cleanup)) = rot { l = l.rotate(crit, naming, cleanup); }
+            if cfg.append { l = l.append(); }
+            l = l.write_mode(wm);
+        }
+    }
     let mut l = l
         .format(raw_format)
         .cleanup_in_background_thread(false)
         .error_channel(flexi_logger::ErrorChannel::File(errchan.to_path_buf()))
         .panic_if_error_channel_is_broken(false);
-    if let Some((crit, naming, cleanup)) = rotation(sp, cfg) {
-        l = l.rotate(crit, naming, cleanup);
-    }
-    if cfg.append {
-        l = l.append();
-    }
-    l = l.write_mode(mode.unwrap_or(match cfg.cap { None => WriteMode::Direct, Some(c) => WriteMode::BufferDontFlushWith(c) }));
     if cfg.symlink {
         l = l.create_symlink(dir.join("current.link"));
     }
@@ -975,6 +997,7 @@ fn execute_inner(ctx: &mut Ctx, lines: &[String]) -> Vec<String> {
     VIA_ADD.store(false, std::sync::atomic::Ordering::SeqCst);
     VIA_FW.store(false, std::sync::atomic::Ordering::SeqCst);
     VIA_FAILING.store(false, std::sync::atomic::Ordering::SeqCst);
+    BUILDER_ORDER.store(0, Ordering::SeqCst);
     let mut bg_lockstep = false;
     let mut bg_adversarial = false;
     let mut nocheck_foreign = false;
@@ -1009,6 +1032,7 @@ fn execute_inner(ctx: &mut Ctx, lines: &[String]) -> Vec<String> {
             ["NOTE", "tz", z] => { if std::env::var("TZ").as_deref() == Ok(*z) { "ok".into() } else { "bad-op zone of the process differs".into() } }
             // the records of this case end with CR LF (`use_windows_line_ending`)
             ["NOTE", "crlf"] => { CRLF.store(true, std::sync::atomic::Ordering::SeqCst); "ok".into() }
+            ["NOTE", "builder-order", n] => { BUILDER_ORDER.store(n.parse().unwrap(), Ordering::SeqCst); "ok".into() }
             ["NOTE", "unrotatable"] => { h.unrotatable = true; "ok".into() }
             ["NOTE", "nocheck-foreign"] => { f.foreign_content.clear(); nocheck_foreign = true; "ok".into() }
             ["NOTE", ..] => "ok".into(),
